@@ -1,11 +1,671 @@
-//! Independent image builder (placeholder until the builder lands).
-use crate::disk::Store;
-use crate::types::VolCfg;
+//! Independent, specification-driven image builder. It deliberately uses the encoding freedoms the
+//! library's own writer never exercises (any EOC value, FAT32 reserved bits, fragmented and backwards
+//! chains, 1-3 FATs, mirroring off, reserved area > 1 sector, both total-sector encodings, SFN-only
+//! entries with lower-case flags, 0x05 lead byte, OEM bytes, labels anywhere, deleted remnants, ...)
+//! and returns the ground truth next to the image.
+use crate::disk::{canary, Store};
+use crate::refdec::{self, sfn_checksum, Geo};
+use crate::rng::Rng;
+use crate::types::*;
+use std::collections::BTreeSet;
+
+#[derive(Clone, Debug)]
+pub struct Truth {
+    /// path components: (long name if any, raw 11-byte short name, NT case flags)
+    pub path: Vec<(Option<Vec<u16>>, [u8; 11], u8)>,
+    pub is_dir: bool,
+    pub content: Vec<u8>,
+    pub attr: u8,
+    pub ctime_tenth: u8,
+    pub ctime: u16,
+    pub cdate: u16,
+    pub adate: u16,
+    pub mtime: u16,
+    pub mdate: u16,
+    pub chain: Vec<u32>,
+}
+
+impl Truth {
+    pub fn display_path(&self, occ: SimOcc) -> Vec<Vec<u16>> {
+        self.path.iter().map(|(l, s, nt)| display_units(l.as_ref(), s, *nt, occ)).collect()
+    }
+}
+
+pub fn display_units(long: Option<&Vec<u16>>, sfn: &[u8; 11], nt: u8, occ: SimOcc) -> Vec<u16> {
+    if let Some(l) = long {
+        return l.clone();
+    }
+    let mut out = vec![];
+    for b in refdec::short_display(sfn, nt) {
+        let mut buf = [0u16; 2];
+        out.extend_from_slice(occ.dec(b).encode_utf16(&mut buf));
+    }
+    out
+}
 
 pub struct Built {
     pub store: Store,
+    pub truth: Vec<Truth>,
+    pub geo: Geo,
+    pub label: Option<[u8; 11]>,
+    pub features: Vec<&'static str>,
 }
 
-pub fn build(_v: &VolCfg, _seed: u64) -> Result<Built, String> {
-    Err("refgen not built yet".into())
+struct Node {
+    long: Option<Vec<u16>>,
+    sfn: [u8; 11],
+    nt: u8,
+    is_dir: bool,
+    attr: u8,
+    content: Vec<u8>,
+    children: Vec<usize>,
+    parent: Option<usize>,
+    stamps: [u16; 5],
+    tenth: u8,
+    chain: Vec<u32>,
+}
+
+const LONG_POOL: &[&str] = &[
+    "Readme.txt", "a long file name.document", "ünïcödé näme.txt", "日本語.txt", "x", "Mixed Case Dir", "lower", "with.many.dots.in.name", "thirteen_char", "exactly 26 characters long",
+    "name with trailing space.t", "ALLCAPS LONG NAME.TXT", "ß-sharp", "a+b=c;d,e[f]", "δοκιμή", "tab-less", "The quick brown fox jumps over the lazy dog and keeps running for a while.longext",
+];
+
+fn valid_date(r: &mut Rng) -> u16 {
+    let y = r.below(128) as u16;
+    let m = r.range(1, 12) as u16;
+    let d = r.range(1, 28) as u16;
+    (y << 9) | (m << 5) | d
+}
+
+fn valid_time(r: &mut Rng) -> u16 {
+    ((r.below(24) as u16) << 11) | ((r.below(60) as u16) << 5) | r.below(30) as u16
+}
+
+fn fold16(u: &[u16]) -> Vec<u32> {
+    refdec::fold_units(u)
+}
+
+pub fn build(v: &VolCfg, seed: u64) -> Result<Built, String> {
+    let mut r = Rng::new(seed ^ 0x4EF6E4);
+    let mut features: Vec<&'static str> = vec![];
+    let bps = u64::from(v.bps);
+    let spc = u64::from(v.spc);
+    let bits: u64 = u64::from(v.fat);
+    let nfats = u64::from(v.fats.clamp(1, 3));
+    // --- geometry from the wanted size ---
+    let reserved: u64 = if v.fat == 32 { *r.pick(&[3u64, 8, 32, 33, 64]) } else { *r.pick(&[1u64, 1, 2, 4, 8]) };
+    if reserved > 1 && v.fat != 32 {
+        features.push("reserved>1 on FAT12/16");
+    }
+    let root_entries: u64 = if v.fat == 32 { 0 } else { u64::from(v.root_entries.max((v.bps / 32) as u16)) };
+    let root_secs = (root_entries * 32 + bps - 1) / bps;
+    let (lo, hi) = match v.fat {
+        12 => (1u64, 4084u64),
+        16 => (4085, 65524),
+        _ => (65525, 0x0FFF_FFF4),
+    };
+    // wanted cluster count from the requested total
+    let want_total = u64::from(v.total_sectors);
+    let mut n = (want_total.saturating_sub(reserved + root_secs) / spc).clamp(lo, hi);
+    let mut spf;
+    loop {
+        spf = ((n + 2) * bits + 8 * bps - 1) / (8 * bps) + if r.chance(1, 4) { r.range(1, 3) } else { 0 };
+        let total = reserved + nfats * spf + root_secs + n * spc;
+        if total <= want_total.max(reserved + nfats * spf + root_secs + lo * spc) || n == lo {
+            break;
+        }
+        let over = total - want_total;
+        n = n.saturating_sub(over / spc + 1).max(lo);
+    }
+    let slack = r.below(spc);
+    let total = reserved + nfats * spf + root_secs + n * spc + slack;
+    if total > u64::from(u32::MAX) {
+        return Err("volume too large".into());
+    }
+    if v.fat != 32 && spf > 0xFFFF {
+        return Err("FAT too large for FAT12/16".into());
+    }
+    let vol_bytes = total * bps;
+    let dev_len = vol_bytes + u64::from(v.extra_sectors) * bps;
+    let mut img = if v.extra_sectors > 0 { Store::with_canary(dev_len, vol_bytes) } else { Store::new(dev_len) };
+    // --- boot sector ---
+    let mut bs = vec![0u8; 512];
+    bs[0] = 0xEB;
+    bs[1] = if v.fat == 32 { 0x58 } else { 0x3C };
+    bs[2] = 0x90;
+    bs[3..11].copy_from_slice(b"REFGEN10");
+    bs[11..13].copy_from_slice(&(v.bps).to_le_bytes());
+    bs[13] = v.spc;
+    bs[14..16].copy_from_slice(&(reserved as u16).to_le_bytes());
+    bs[16] = nfats as u8;
+    bs[17..19].copy_from_slice(&(root_entries as u16).to_le_bytes());
+    let use16 = v.fat != 32 && total < 0x10000 && r.chance(2, 3);
+    if use16 {
+        bs[19..21].copy_from_slice(&(total as u16).to_le_bytes());
+    } else {
+        bs[32..36].copy_from_slice(&(total as u32).to_le_bytes());
+        if total < 0x10000 {
+            features.push("small volume with 32-bit total-sector field");
+        }
+    }
+    let media = *r.pick(&[0xF8u8, 0xF0, 0xF9, 0xFA]);
+    bs[21] = media;
+    bs[24..26].copy_from_slice(&63u16.to_le_bytes());
+    bs[26..28].copy_from_slice(&255u16.to_le_bytes());
+    bs[28..32].copy_from_slice(&(r.below(1 << 20) as u32).to_le_bytes());
+    let mut ext_flags = 0u16;
+    let mut active = 0u64;
+    let (fsinfo_sec, backup_sec) = if v.fat == 32 { (1u64, if reserved > 6 { 6 } else { 2 }) } else { (0, 0) };
+    if v.fat == 32 {
+        bs[36..40].copy_from_slice(&(spf as u32).to_le_bytes());
+        if nfats > 1 && r.chance(1, 3) {
+            active = r.below(nfats);
+            ext_flags = 0x80 | active as u16;
+            features.push("FAT mirroring disabled");
+        }
+        bs[40..42].copy_from_slice(&ext_flags.to_le_bytes());
+        bs[48..50].copy_from_slice(&(fsinfo_sec as u16).to_le_bytes());
+        bs[50..52].copy_from_slice(&(backup_sec as u16).to_le_bytes());
+        bs[64] = 0x80;
+        bs[65] = v.status;
+        bs[66] = 0x29;
+        bs[67..71].copy_from_slice(&0xCAFE_F00Du32.to_le_bytes());
+        bs[71..82].copy_from_slice(b"REFGEN VOL ");
+        bs[82..90].copy_from_slice(b"FAT32   ");
+    } else {
+        bs[22..24].copy_from_slice(&(spf as u16).to_le_bytes());
+        bs[36] = 0x80;
+        bs[37] = v.status;
+        bs[38] = 0x29;
+        bs[39..43].copy_from_slice(&0xCAFE_F00Du32.to_le_bytes());
+        bs[43..54].copy_from_slice(b"REFGEN VOL ");
+        bs[54..62].copy_from_slice(if v.fat == 12 { b"FAT12   " } else { b"FAT16   " });
+    }
+    bs[510] = 0x55;
+    bs[511] = 0xAA;
+    if nfats == 3 {
+        features.push("3 FAT copies");
+    }
+    // --- cluster allocator over 2..n+1 with some bad clusters ---
+    let mut free: Vec<u32> = (2..(n + 2) as u32).collect();
+    // keep the pool small for speed on FAT32: allocate from a window
+    if free.len() > 6000 {
+        let start = r.usize_below(free.len() - 6000);
+        free = free[start..start + 6000].to_vec();
+    }
+    let mut bad: Vec<u32> = vec![];
+    for _ in 0..r.below(4) {
+        if free.len() > 50 {
+            let i = r.usize_below(free.len());
+            bad.push(free.swap_remove(i));
+        }
+    }
+    if !bad.is_empty() {
+        features.push("bad clusters");
+    }
+    let frag = r.below(3);
+    let alloc = |r: &mut Rng, free: &mut Vec<u32>, k: usize| -> Option<Vec<u32>> {
+        if free.len() < k {
+            return None;
+        }
+        let mut ch = vec![];
+        match frag {
+            0 => {
+                // contiguous-ish from the front
+                for _ in 0..k {
+                    ch.push(free.remove(0));
+                }
+            }
+            1 => {
+                for _ in 0..k {
+                    let i = r.usize_below(free.len());
+                    ch.push(free.swap_remove(i));
+                }
+            }
+            _ => {
+                // backwards
+                for _ in 0..k {
+                    let i = free.len() - 1 - r.usize_below(free.len().min(8));
+                    ch.push(free.remove(i));
+                }
+            }
+        }
+        Some(ch)
+    };
+    if frag > 0 {
+        features.push("fragmented / backwards chains");
+    }
+    let cluster_bytes = (spc * bps) as usize;
+    // --- tree ---
+    let mut nodes: Vec<Node> = vec![Node { long: None, sfn: [b' '; 11], nt: 0, is_dir: true, attr: 0x10, content: vec![], children: vec![], parent: None, stamps: [0; 5], tenth: 0, chain: vec![] }];
+    let root_chain = if v.fat == 32 { alloc(&mut r, &mut free, 1).ok_or("no space for root")? } else { vec![] };
+    if v.fat == 32 {
+        bs[44..48].copy_from_slice(&root_chain[0].to_le_bytes());
+        if root_chain[0] != 2 {
+            features.push("FAT32 root directory not at cluster 2");
+        }
+    }
+    nodes[0].chain = root_chain;
+    let n_objs = r.range(3, 22) as usize;
+    let mut alias_ctr = 1u32;
+    for _ in 0..n_objs {
+        let dirs: Vec<usize> = (0..nodes.len()).filter(|i| nodes[*i].is_dir && depth(&nodes, *i) < 3).collect();
+        let parent = *r.pick(&dirs);
+        // fixed root capacity: leave room
+        if parent == 0 && v.fat != 32 {
+            let used: usize = nodes[0].children.iter().map(|c| slots_of(&nodes[*c])).sum();
+            if (used + 24) as u64 > root_entries {
+                continue;
+            }
+        }
+        let is_dir = r.chance(1, 3);
+        let form = r.below(10);
+        let (long, sfn, nt): (Option<Vec<u16>>, [u8; 11], u8) = if form < 5 {
+            // long name + generated alias
+            let base = *r.pick(LONG_POOL);
+            let name = format!("{}{}", base, if r.chance(1, 2) { String::new() } else { format!(" {}", r.below(50)) });
+            let units: Vec<u16> = name.encode_utf16().collect();
+            let mut s = [b' '; 11];
+            let mut k = 0;
+            for ch in name.chars() {
+                if k >= 6 {
+                    break;
+                }
+                if ch.is_ascii_alphanumeric() {
+                    s[k] = ch.to_ascii_uppercase() as u8;
+                    k += 1;
+                }
+            }
+            if k == 0 {
+                s[0] = b'_';
+                k = 1;
+            }
+            let tail = format!("~{}", alias_ctr);
+            alias_ctr += 1;
+            let tb = tail.as_bytes();
+            let k2 = k.min(8 - tb.len());
+            s[k2..k2 + tb.len()].copy_from_slice(tb);
+            s[8..11].copy_from_slice(b"LFN");
+            (Some(units), s, 0)
+        } else if form < 7 {
+            // plain upper-case 8.3
+            let mut s = [b' '; 11];
+            let l = r.range(1, 8) as usize;
+            for b in s.iter_mut().take(l) {
+                *b = *r.pick(b"ABCDEFGHIJKLMNOPQRSTUVWXYZ0123456789_-~!#$%&'()@^`{}");
+            }
+            let e = r.below(4) as usize;
+            for i in 0..e {
+                s[8 + i] = *r.pick(b"ABCXYZ019");
+            }
+            (None, s, 0)
+        } else if form < 9 {
+            // SFN only with NT lower-case flags
+            let mut s = [b' '; 11];
+            let l = r.range(1, 8) as usize;
+            for b in s.iter_mut().take(l) {
+                *b = b'A' + r.below(26) as u8;
+            }
+            let e = r.range(1, 3) as usize;
+            for i in 0..e {
+                s[8 + i] = b'A' + r.below(26) as u8;
+            }
+            features.push("SFN-only entries with lower-case flags");
+            (None, s, *r.pick(&[0x08u8, 0x10, 0x18]))
+        } else {
+            // OEM bytes and the 0x05 lead byte
+            let mut s = [b' '; 11];
+            s[0] = if r.chance(1, 2) { 0x05 } else { 0x80 + r.below(0x65) as u8 };
+            s[1] = b'A' + r.below(26) as u8;
+            s[2] = b'0' + r.below(10) as u8;
+            s[3] = b'0' + r.below(10) as u8;
+            s[8] = b'O';
+            s[9] = b'E';
+            s[10] = b'M';
+            features.push("OEM bytes / 0x05 lead byte in short names");
+            (None, s, 0)
+        };
+        // uniqueness (both converters, both name kinds)
+        let mut clash = false;
+        for occ in [SimOcc(Oem::Lossy), SimOcc(Oem::Cp437)] {
+            let d = fold16(&display_units(long.as_ref(), &sfn, nt, occ));
+            let a = fold16(&display_units(None, &sfn, 0, occ));
+            for c in &nodes[parent].children {
+                let o = &nodes[*c];
+                let od = fold16(&display_units(o.long.as_ref(), &o.sfn, o.nt, occ));
+                let oa = fold16(&display_units(None, &o.sfn, 0, occ));
+                if d == od || d == oa || a == od || a == oa {
+                    clash = true;
+                }
+            }
+        }
+        if clash || sfn[0] == b' ' {
+            continue;
+        }
+        let attr = if is_dir { 0x10 | *r.pick(&[0u8, 0, 0x01, 0x02, 0x04, 0x20, 0x07]) } else { *r.pick(&[0u8, 0x20, 0x20, 0x01, 0x02, 0x04, 0x21, 0x27, 0x06]) };
+        let content = if is_dir {
+            vec![]
+        } else {
+            let len = match r.below(8) {
+                0 => 0,
+                1 => cluster_bytes,
+                2 => cluster_bytes + 1,
+                3 => 2 * cluster_bytes,
+                4 => r.usize_below(3 * cluster_bytes.min(8192) + 1),
+                _ => r.usize_below(200),
+            };
+            let mut c = vec![0u8; len];
+            r.fill(&mut c);
+            c
+        };
+        let need = if is_dir { 1 } else { (content.len() + cluster_bytes - 1) / cluster_bytes };
+        let Some(chain) = alloc(&mut r, &mut free, need) else { continue };
+        let id = nodes.len();
+        nodes.push(Node {
+            long,
+            sfn,
+            nt,
+            is_dir,
+            attr,
+            content,
+            children: vec![],
+            parent: Some(parent),
+            stamps: [valid_time(&mut r), valid_date(&mut r), valid_date(&mut r), valid_time(&mut r), valid_date(&mut r)],
+            tenth: r.below(200) as u8,
+            chain,
+        });
+        nodes[parent].children.push(id);
+    }
+    // --- directories: slot streams ---
+    let label: Option<[u8; 11]> = if r.chance(1, 2) { Some(*b"REFGENLABEL") } else { None };
+    let mut fat_next: Vec<(u32, u32)> = vec![]; // (cluster, value)
+    let eoc = |r: &mut Rng| -> u32 {
+        let low = 0xF8 + r.below(8) as u32;
+        match v.fat {
+            12 => 0xF00 | low,
+            16 => 0xFF00 | low,
+            _ => 0x0FFF_FF00 | low,
+        }
+    };
+    let dir_ids: Vec<usize> = (0..nodes.len()).filter(|i| nodes[*i].is_dir).collect();
+    for &d in &dir_ids {
+        let mut slots: Vec<[u8; 32]> = vec![];
+        if d != 0 {
+            let own = nodes[d].chain[0];
+            let par = nodes[d].parent.unwrap();
+            let parc = if par == 0 { 0 } else { nodes[par].chain[0] };
+            slots.push(sfn_slot(b".          ", 0x10, 0, own, 0, &nodes[d].stamps, nodes[d].tenth, v.fat));
+            slots.push(sfn_slot(b"..         ", 0x10, 0, parc, 0, &nodes[d].stamps, nodes[d].tenth, v.fat));
+        }
+        let kids = nodes[d].children.clone();
+        let label_pos = if d == 0 && label.is_some() { Some(r.usize_below(kids.len() + 1)) } else { None };
+        for (ki, k) in kids.iter().enumerate() {
+            if label_pos == Some(ki) {
+                slots.push(sfn_slot(&label.unwrap(), 0x08, 0, 0, 0, &[0; 5], 0, v.fat));
+                if ki > 0 {
+                    features.push("volume label in the middle of the root directory");
+                }
+            }
+            // deleted remnants between live entries
+            if r.chance(1, 3) {
+                let cnt = r.range(1, 3);
+                for _ in 0..cnt {
+                    let mut junk = [0u8; 32];
+                    r.fill(&mut junk);
+                    junk[0] = 0xE5;
+                    if r.chance(1, 2) {
+                        junk[11] = 0x0F;
+                    }
+                    slots.push(junk);
+                }
+                features.push("deleted slots between live entries");
+            }
+            let nd = &nodes[*k];
+            if let Some(l) = &nd.long {
+                let chk = sfn_checksum(&nd.sfn);
+                let cnt = (l.len() + 12) / 13;
+                let mut padded = l.clone();
+                if padded.len() % 13 != 0 {
+                    padded.push(0);
+                    while padded.len() % 13 != 0 {
+                        padded.push(0xFFFF);
+                    }
+                }
+                for i in (1..=cnt).rev() {
+                    let mut u = [0u16; 13];
+                    u.copy_from_slice(&padded[(i - 1) * 13..i * 13]);
+                    slots.push(crate::c17::mk_lfn(i as u8 | if i == cnt { 0x40 } else { 0 }, chk, &u, 0x0F, 0, 0));
+                }
+            }
+            let first = nd.chain.first().copied().unwrap_or(0);
+            slots.push(sfn_slot(&nd.sfn, nd.attr, nd.nt, first, if nd.is_dir { 0 } else { nd.content.len() as u32 }, &nd.stamps, nd.tenth, v.fat));
+        }
+        if label_pos == Some(kids.len()) {
+            slots.push(sfn_slot(&label.unwrap(), 0x08, 0, 0, 0, &[0; 5], 0, v.fat));
+        }
+        if d == 0 && v.fat != 32 {
+            if slots.len() as u64 > root_entries {
+                return Err("root overflow".into());
+            }
+            let base = (reserved + nfats * spf) * bps;
+            for (i, s) in slots.iter().enumerate() {
+                img.write_at(base + (i as u64) * 32, s);
+            }
+        } else {
+            let per = cluster_bytes / 32;
+            // sometimes fill the last cluster completely (no end marker), sometimes add an empty trailing cluster
+            if r.chance(1, 5) && !slots.is_empty() {
+                while slots.len() % per != 0 {
+                    let mut junk = [0u8; 32];
+                    junk[0] = 0xE5;
+                    slots.push(junk);
+                }
+                features.push("directory whose last cluster is completely full (no end marker)");
+            }
+            let mut need = (slots.len() + per - 1) / per;
+            need = need.max(1);
+            if r.chance(1, 6) {
+                need += 1;
+            }
+            while nodes[d].chain.len() < need {
+                match alloc(&mut r, &mut free, 1) {
+                    Some(c) => nodes[d].chain.push(c[0]),
+                    None => return Err("out of clusters".into()),
+                }
+            }
+            if nodes[d].chain.len() > 1 {
+                features.push("directory spanning several (non-adjacent) clusters");
+            }
+            for (i, s) in slots.iter().enumerate() {
+                let c = nodes[d].chain[i / per];
+                let off = (reserved + nfats * spf + root_secs) * bps + u64::from(c - 2) * cluster_bytes as u64 + ((i % per) * 32) as u64;
+                img.write_at(off, s);
+            }
+        }
+    }
+    // --- data + FAT entries ---
+    let data_off = (reserved + nfats * spf + root_secs) * bps;
+    for nd in nodes.iter() {
+        for (i, c) in nd.chain.iter().enumerate() {
+            let val = if i + 1 < nd.chain.len() { nd.chain[i + 1] } else { eoc(&mut r) };
+            fat_next.push((*c, val));
+            if !nd.is_dir {
+                let lo = i * cluster_bytes;
+                let hi = ((i + 1) * cluster_bytes).min(nd.content.len());
+                if lo < hi {
+                    img.write_at(data_off + u64::from(*c - 2) * cluster_bytes as u64, &nd.content[lo..hi]);
+                }
+                // slack after the end of the file inside its last cluster holds garbage
+                if hi - lo < cluster_bytes && hi > lo && r.chance(1, 2) {
+                    let mut g = vec![0u8; (cluster_bytes - (hi - lo)).min(64)];
+                    r.fill(&mut g);
+                    img.write_at(data_off + u64::from(*c - 2) * cluster_bytes as u64 + (hi - lo) as u64, &g);
+                }
+            }
+        }
+    }
+    for b in &bad {
+        fat_next.push((*b, match v.fat {
+            12 => 0xFF7,
+            16 => 0xFFF7,
+            _ => 0x0FFF_FFF7,
+        }));
+    }
+    let fat_bytes = spf * bps;
+    let write_entry = |img: &mut Store, copy: u64, c: u32, val: u32| {
+        let base = (reserved + copy * spf) * bps;
+        match v.fat {
+            12 => {
+                let o = base + u64::from(c) + u64::from(c / 2);
+                let w = img.u16_at(o);
+                let nw = if c & 1 == 0 { (w & 0xF000) | (val as u16 & 0xFFF) } else { (w & 0x000F) | ((val as u16) << 4) };
+                img.put_u16(o, nw);
+            }
+            16 => img.put_u16(base + u64::from(c) * 2, val as u16),
+            _ => img.put_u32(base + u64::from(c) * 4, val),
+        }
+    };
+    let hi_bits = v.fat == 32 && r.chance(1, 2);
+    if hi_bits {
+        features.push("FAT32 entries with non-zero reserved high bits");
+    }
+    for copy in 0..nfats {
+        let live = ext_flags & 0x80 == 0 || copy == active;
+        if !live {
+            // inactive copy: garbage (must never be read or written)
+            let mut g = vec![0u8; fat_bytes.min(4096) as usize];
+            r.fill(&mut g);
+            img.write_at((reserved + copy * spf) * bps, &g);
+            continue;
+        }
+        let e0 = match v.fat {
+            12 => 0xF00 | u32::from(media),
+            16 => 0xFF00 | u32::from(media),
+            _ => 0x0FFF_FF00 | u32::from(media),
+        };
+        let e1 = match v.fat {
+            12 => 0xFFF,
+            16 => 0xFFFF,
+            _ => 0x0FFF_FFFF,
+        };
+        write_entry(&mut img, copy, 0, e0);
+        write_entry(&mut img, copy, 1, e1);
+        let mut r2 = Rng::new(seed ^ 0xB175);
+        for (c, val) in &fat_next {
+            let hb = if hi_bits { (r2.below(16) as u32) << 28 } else { 0 };
+            write_entry(&mut img, copy, *c, *val | hb);
+        }
+        // entries beyond the last cluster up to the FAT capacity are not free
+        let cap = (fat_bytes * 8 / bits).min(n + 2 + 4096);
+        for c in (n + 2)..cap {
+            write_entry(&mut img, copy, c as u32, e1);
+        }
+    }
+    img.write_at(0, &bs);
+    if v.fat == 32 {
+        img.write_at(backup_sec * bps, &bs);
+        let mut fi = vec![0u8; 512];
+        fi[0..4].copy_from_slice(&0x4161_5252u32.to_le_bytes());
+        fi[484..488].copy_from_slice(&0x6141_7272u32.to_le_bytes());
+        let used = fat_next.len() as u64;
+        let cnt: u32 = match v.fsinfo_mode {
+            0 => (n - used) as u32,
+            1 => 0xFFFF_FFFF,
+            _ => (n + 5) as u32,
+        };
+        fi[488..492].copy_from_slice(&cnt.to_le_bytes());
+        let hint: u32 = v.hint.unwrap_or_else(|| if r.chance(1, 2) { 0xFFFF_FFFF } else { r.range(2, n + 1) as u32 });
+        fi[492..496].copy_from_slice(&hint.to_le_bytes());
+        fi[508..512].copy_from_slice(&0xAA55_0000u32.to_le_bytes());
+        img.write_at(fsinfo_sec * bps, &fi);
+        if backup_sec + 1 < reserved {
+            img.write_at((backup_sec + 1) * bps, &fi);
+        }
+    }
+    // canary in unused reserved sectors
+    for sec in 1..reserved {
+        if v.fat == 32 && (sec == fsinfo_sec || sec == backup_sec || sec == backup_sec + 1) {
+            continue;
+        }
+        let base = sec * bps;
+        let pat: Vec<u8> = (0..bps).map(|i| canary(base + i)).collect();
+        img.write_at(base, &pat);
+    }
+    // --- ground truth ---
+    let mut truth = vec![];
+    for i in 1..nodes.len() {
+        let mut path = vec![];
+        let mut c = i;
+        while let Some(p) = nodes[c].parent {
+            path.push((nodes[c].long.clone(), nodes[c].sfn, nodes[c].nt));
+            c = p;
+        }
+        path.reverse();
+        let nd = &nodes[i];
+        truth.push(Truth {
+            path,
+            is_dir: nd.is_dir,
+            content: nd.content.clone(),
+            attr: nd.attr,
+            ctime_tenth: nd.tenth,
+            ctime: nd.stamps[0],
+            cdate: nd.stamps[1],
+            adate: nd.stamps[2],
+            mtime: nd.stamps[3],
+            mdate: nd.stamps[4],
+            chain: nd.chain.clone(),
+        });
+    }
+    let geo = refdec::geo(&img).map_err(|e| format!("refgen produced an incoherent volume: {}", e))?;
+    if geo.fat_bits != u32::from(v.fat) || u64::from(geo.n_clusters) != n {
+        return Err(format!("refgen geometry mismatch: wanted FAT{} with {} clusters, decoder sees FAT{} with {}", v.fat, n, geo.fat_bits, geo.n_clusters));
+    }
+    features.sort_unstable();
+    features.dedup();
+    Ok(Built { store: img, truth, geo, label, features })
+}
+
+fn depth(nodes: &[Node], mut i: usize) -> usize {
+    let mut d = 0;
+    while let Some(p) = nodes[i].parent {
+        d += 1;
+        i = p;
+    }
+    d
+}
+
+fn slots_of(n: &Node) -> usize {
+    1 + n.long.as_ref().map_or(0, |l| (l.len() + 12) / 13) + 3
+}
+
+#[allow(clippy::too_many_arguments)]
+fn sfn_slot(name: &[u8; 11], attr: u8, nt: u8, cluster: u32, size: u32, stamps: &[u16; 5], tenth: u8, fat: u8) -> [u8; 32] {
+    let mut b = [0u8; 32];
+    b[..11].copy_from_slice(name);
+    b[11] = attr;
+    b[12] = nt;
+    b[13] = tenth;
+    b[14..16].copy_from_slice(&stamps[0].to_le_bytes());
+    b[16..18].copy_from_slice(&stamps[1].to_le_bytes());
+    b[18..20].copy_from_slice(&stamps[2].to_le_bytes());
+    if fat == 32 {
+        b[20..22].copy_from_slice(&((cluster >> 16) as u16).to_le_bytes());
+    }
+    b[22..24].copy_from_slice(&stamps[3].to_le_bytes());
+    b[24..26].copy_from_slice(&stamps[4].to_le_bytes());
+    b[26..28].copy_from_slice(&(cluster as u16).to_le_bytes());
+    b[28..32].copy_from_slice(&size.to_le_bytes());
+    b
+}
+
+/// fold helper used by the harness self test
+pub fn unique_names(t: &[Truth]) -> bool {
+    let mut seen: BTreeSet<Vec<Vec<u32>>> = BTreeSet::new();
+    for x in t {
+        let k: Vec<Vec<u32>> = x.display_path(SimOcc(Oem::Lossy)).iter().map(|c| fold16(c)).collect();
+        if !seen.insert(k) {
+            return false;
+        }
+    }
+    true
 }
